@@ -57,6 +57,20 @@ def build_go(log, cmds=None):
         log(f"go build rc={rc} {time.time()-t:.1f}s")
         return rc, out
 
+def build_go_race(log, comps):
+    """-race builds of the given drivers: harness/bin/drive_<c>_race (the Go race detector reports unsynchronised accesses of
+    two goroutines whether or not the run was unlucky; a report makes the process exit 66, which a stream sees as CRASH … DATA RACE)"""
+    with Lock("go"):
+        t = time.time()
+        for c in comps:
+            rc, out = sh(["go", "build", "-race", "-tags", "verif", "-o", os.path.join(HARNESS, "bin", f"drive_{c}_race"), f"./cmd/drive_{c}"],
+                         cwd=HARNESS, env=goenv(), timeout=900)
+            if rc != 0:
+                log(f"go build -race drive_{c} rc={rc}")
+                return rc, out
+        log(f"go build -race rc=0 {time.time()-t:.1f}s")
+        return 0, ""
+
 def extract_facts(log, sections):
     """regenerate lean/GmqttVerif/Generated/<Section>.lean for the given sections from /repo. A section that cannot be
     read removes its module (so the theorems over it stop building) and makes this return non-zero."""
@@ -176,7 +190,8 @@ def run_proc(cmd, text, timeout):
     except subprocess.TimeoutExpired:
         return None, "timeout"
     if p.returncode != 0:
-        return None, f"exit {p.returncode}: {p.stderr[-600:]}"
+        err = p.stderr if len(p.stderr) <= 1500 else p.stderr[:700] + " … " + p.stderr[-700:]
+        return None, f"exit {p.returncode}: {err}"
     return p.stdout.split("\n")[:-1] if p.stdout.endswith("\n") else p.stdout.split("\n"), ""
 
 def run_cases(cmd, cases, timeout=120):
@@ -224,12 +239,15 @@ class Stream:
         self.gen, self.predicate, self.nontrivial = gen, predicate, nontrivial
         self.canon = canon or (lambda ops, out: out)
         self.corpus, self.keep_prefix, self.timeout = corpus, keep_prefix, timeout
+        self.oracle_comp = None    # Lean side when it is not oracle_<comp> (comp = "<c>_race": the -race build of drive_<c>)
+        self.gomaxprocs = None     # the implementation side runs with this many Ps (default 1: many processes side by side)
     def impl(self, cases):
-        return run_parallel([drive_exe(self.comp)] + self.drive_args, cases, timeout=self.timeout)
+        pre = ["env", f"GOMAXPROCS={self.gomaxprocs}"] if self.gomaxprocs else []
+        return run_parallel(pre + [drive_exe(self.comp)] + self.drive_args, cases, timeout=self.timeout)
     def model(self, cases, impl_outs=None):
         if self.hint and impl_outs is not None:
             cases = [self.hint(c, o) if len(o) == len(c) else c for c, o in zip(cases, impl_outs)]
-        return run_parallel([oracle_exe(self.comp)] + self.oracle_args, cases, timeout=self.timeout)
+        return run_parallel([oracle_exe(self.oracle_comp or self.comp)] + self.oracle_args, cases, timeout=self.timeout)
     def both(self, case):
         io = self.impl([case])[0]
         return io, self.model([case], [io])[0]
@@ -603,6 +621,11 @@ def standard_run(r, mod):
     if rc != 0:
         r.violation("go-build", "# harness does not build against /repo any more\n" + out[-3000:], False, "go build failed")
         return r.finish(rule=mod.RULE, assumptions=mod.ASSUME)
+    if getattr(mod, "RACE_COMPS", None):
+        rc, out = build_go_race(r.log, mod.RACE_COMPS)
+        if rc != 0:
+            r.violation("go-build", "# the -race build of the harness fails against /repo\n" + out[-3000:], False, "go build -race failed")
+            return r.finish(rule=mod.RULE, assumptions=mod.ASSUME)
     for s, n in mod.streams(r.tier):
         r.correspond(s, n)
     if hasattr(mod, "extra"):
